@@ -203,6 +203,18 @@ def argv(ev, i):
     return a
 
 
+def is_view_of(t, src):
+    """t is src itself or a projection / pointer view of it (field, deref, cast, re-borrow): the
+    same storage handed over by value, by reference or through Box/Vec internals"""
+    for _ in range(12):
+        if t == src: return True
+        if t[0] in ('fld', 'deref'): t = t[1]
+        elif t[0] == 'cast': t = t[3]
+        elif t[0] == 'ref_t' and isinstance(t[1], tuple) and t[1] and t[1][0] == 'deref': t = t[1][1]
+        else: return False
+    return False
+
+
 def loop_var_range(engine, var):
     """If `var` is a loop counter, return (start, end, facts_needed) for the idioms
       for v in a..b            (payload of Range::next on an iterator created from Range{a, b})
